@@ -118,6 +118,9 @@ func main() {
 	n := uint64(0)
 	for run := *from; n < *maxRuns && time.Now().Before(deadline); run += *stride {
 		n++
+		fmt.Fprintf(w, "{\"start\":%d}\n", run)
+		w.Flush()
+		fmt.Fprintf(os.Stderr, "RUN %d BEGIN\n", run)
 		plan := e.Generate(*prop, *tier, *seed, run)
 		dir := filepath.Join(*scratch, fmt.Sprintf("run%d", run))
 		t0 := time.Now()
